@@ -59,8 +59,12 @@ def float32_pack(mant, exp2):
 
 # ----------------------------------------------------------------------- bits
 class BitWriter:
+    """LSb-first bit packer (linear time: a small accumulator is drained into a bytearray)"""
+
     def __init__(self):
+        self.out = bytearray()
         self.acc = 0
+        self.nacc = 0
         self.n = 0
         self.fields = []      # (name, bit offset, width)
 
@@ -70,12 +74,18 @@ class BitWriter:
             assert 0 <= val < (1 << bits), (name, val, bits)
         if name is not None:
             self.fields.append((name, self.n, bits))
-        self.acc |= val << self.n
+        self.acc |= val << self.nacc
+        self.nacc += bits
         self.n += bits
+        if self.nacc >= 64:
+            nb = self.nacc >> 3
+            self.out += (self.acc & ((1 << (8 * nb)) - 1)).to_bytes(nb, 'little')
+            self.acc >>= 8 * nb
+            self.nacc -= 8 * nb
 
     def bytes(self):
-        nb = (self.n + 7) // 8
-        return self.acc.to_bytes(nb, 'little') if nb else b''
+        nb = (self.nacc + 7) // 8
+        return bytes(self.out) + (self.acc.to_bytes(nb, 'little') if nb else b'')
 
     def wbytes(self, b):
         for c in b:
@@ -282,6 +292,9 @@ def pack_comment(vendor=b'vspec', comments=(), framing=1):
 
 def pack_codebook(w, b, k):
     p = f'book{k}.'
+    if getattr(b, 'raw', None):          # hand-written bits (size-extreme books for C02)
+        b.raw(w, p)
+        return
     w.w(0x564342, 24, p + 'sync')
     w.w(b.dim, 16, p + 'dim')
     w.w(b.entries, 24, p + 'entries')
